@@ -435,3 +435,26 @@ pub fn run(args: &Args) -> i32 {
 	ev.assume("comparison tuple: best block of manager and monitors, channel readiness/confirmations, sorted claimable balances, get_relevant_txids of manager and chain monitor, cumulative multiset of ChannelClosed / ChannelReady / SpendableOutputs / PaymentSent / PaymentFailed / PaymentClaimed / HTLCHandlingFailed events; skipping styles are compared every third block");
 	mc_common::findings::conclude("C11", &violations, &mut ev)
 }
+
+/// Re-runs one script named in a violation's replay file.
+pub fn replay_script(name: &str) -> i32 {
+	for tier in [Tier::Quick, Tier::Thorough] {
+		if let Some(sc) = scripts(tier).into_iter().find(|s| s.name == name) {
+			return match par::guarded(|| run_script(&sc)) {
+				Ok(Ok(res)) => {
+					for (oracle, id, detail) in res.violations.iter() {
+						println!("[{}] {} {} {}", sc.name, oracle, id, detail);
+					}
+					println!("script {}: {} comparisons, {} violations", sc.name, res.comparisons, res.violations.len());
+					if res.violations.is_empty() { 0 } else { 1 }
+				},
+				Ok(Err(e)) => mc_common::cli::die(&format!("harness problem in script {}: {}", sc.name, e)),
+				Err(p) => {
+					println!("script {}: panic {}", sc.name, p);
+					1
+				},
+			};
+		}
+	}
+	mc_common::cli::die("unknown script in replay file")
+}
